@@ -20,7 +20,7 @@ custom error handlers (including ones that answer an error with the same error f
 every response state: the `diverged` marker of the model is never produced. -/
 theorem cast_terminates (app : App) (fw : Bool) (s : Slots) (out : Out) :
     (cast app fw s out).2 ≠ .diverged := by
-  have h := runLoop_terminates app fw (Gen.castMaxLoops + 1) 0 s out (Nat.zero_le _) (by omega)
+  have h := runLoop_terminates app fw (Gen.wsgiCastMaxLoops + 1) 0 s out (Nat.zero_le _) (by omega)
   unfold cast
   split
   · rename_i s' r heq
@@ -28,7 +28,7 @@ theorem cast_terminates (app : App) (fw : Bool) (s : Slots) (out : Out) :
     simp only at hr
     subst hr
     have hnd := runLoop_invariant app fw Cfg.notDiverged (step_notDiverged app fw)
-      (Gen.castMaxLoops + 1) (.run 0 s out) trivial
+      (Gen.wsgiCastMaxLoops + 1) (.run 0 s out) trivial
     rw [heq] at hnd
     exact hnd
   · rename_i heq
@@ -583,7 +583,7 @@ theorem wsgi_wellformed (app : App) (s : Slots) (r : Req) (hp : r.pathOK = true)
    wsgi_hooks app s r hp⟩
 
 /-- the catch-all branch is modelled because the extracted configuration has it switched on -/
-theorem catchall_on : Gen.catchall = true ∧ Gen.debug = false := by decide
+theorem catchall_on : Gen.wsgiCatchall = true ∧ Gen.wsgiDebug = false := by decide
 
 /-! ### NonVacuity: concrete instances meeting the hypotheses -/
 section NonVacuity
